@@ -54,6 +54,18 @@ type opInst struct {
 type opRes struct {
 	vals []cty.Value
 	s    string
+	viol string // set by an operation that itself saw a value change under its hands (checked in the sequential reference execution)
+}
+
+// frozen records what v reports now; the returned function is called after the operation has mutated Go data
+// the value was built from (or that was obtained from it) and notes a violation in r if v reports anything else.
+func frozen(what string, v cty.Value) func(r *opRes) {
+	before := fp(v)
+	return func(r *opRes) {
+		if now := fp(v); now != before && r.viol == "" {
+			r.viol = fmt.Sprintf("%s changed when the Go data it was built from was mutated afterwards\nbefore: %s\nafter:  %s", what, clip(before), clip(now))
+		}
+	}
 }
 
 type taskState struct {
@@ -285,7 +297,21 @@ func init() {
 			keys[i] = cty.VerifFingerprintPath(x.Path) + marksKey(x.Marks)
 		}
 		sort.Strings(keys)
-		return opRes{vals: []cty.Value{u, u.MarkWithPaths(pvm)}, s: strings.Join(keys, ";")}
+		// the recorded list is the caller's: applying it twice gives the same value twice and leaves the list alone
+		r1 := u.MarkWithPaths(pvm)
+		keys2 := make([]string, len(pvm))
+		for i, x := range pvm {
+			keys2[i] = cty.VerifFingerprintPath(x.Path) + marksKey(x.Marks)
+		}
+		sort.Strings(keys2)
+		r2 := u.MarkWithPaths(pvm)
+		res := opRes{vals: []cty.Value{u, r1, r2}, s: strings.Join(keys, ";")}
+		if k1, k2 := strings.Join(keys, ";"), strings.Join(keys2, ";"); k1 != k2 {
+			res.viol = fmt.Sprintf("MarkWithPaths changed the list of paths and marks it was given\nbefore: %s\nafter:  %s", clip(k1), clip(k2))
+		} else if f1, f2 := fp(r1), fp(r2); f1 != f2 {
+			res.viol = fmt.Sprintf("MarkWithPaths with the same list gave two different values\nfirst:  %s\nsecond: %s", clip(f1), clip(f2))
+		}
+		return res
 	}, selAny)
 	defOp("WithSameMarks", "", func(t *taskState, a [3]cty.Value, p [3]int) opRes { return v1(a[0].WithSameMarks(a[1], a[2])) }, selAny, selAny, selAny)
 	defOp("HasMark", "", func(t *taskState, a [3]cty.Value, p [3]int) opRes {
@@ -386,6 +412,15 @@ func init() {
 		}
 		_, m3 := a[0].UnmarkDeep()
 		m3["injected3"] = struct{}{}
+		// the (path, marks) entries of UnmarkDeepWithPaths are the caller's too
+		_, pvm := a[0].UnmarkDeepWithPaths()
+		for i := range pvm {
+			pvm[i].Marks["injected4"] = struct{}{}
+			delete(pvm[i].Marks, "m1")
+			for j := range pvm[i].Path {
+				pvm[i].Path[j] = cty.GetAttrStep{Name: "overwritten"}
+			}
+		}
 		return sres("%s", k)
 	}, selAny)
 	defOp("AsValueSliceMutate", "alias.out.slice", func(t *taskState, a [3]cty.Value, p [3]int) opRes {
@@ -453,40 +488,83 @@ func init() {
 	// ---- constructors followed by mutation of the Go data passed in
 	defOp("ListValMutate", "alias.in.slice", func(t *taskState, a [3]cty.Value, p [3]int) opRes {
 		in := []cty.Value{a[0], a[1]}
+		if p[1]%2 == 0 {
+			in = append(make([]cty.Value, 0, 8), in...) // spare capacity
+		}
 		var r cty.Value
+		what := ""
 		switch p[0] % 3 {
 		case 0:
-			r = cty.ListVal(in)
+			r, what = cty.ListVal(in), "ListVal"
 		case 1:
-			r = cty.TupleVal(in)
+			r, what = cty.TupleVal(in), "TupleVal"
 		case 2:
-			r = cty.SetVal(in)
+			r, what = cty.SetVal(in), "SetVal"
 		}
+		chk := frozen("the result of "+what, r)
 		in[0], in[1] = cty.StringVal("overwritten"), cty.False
-		return v1(r)
+		in = append(in, cty.True)
+		res := v1(r)
+		chk(&res)
+		return res
 	}, selAny, selSame)
 	defOp("MapValMutate", "alias.in.map", func(t *taskState, a [3]cty.Value, p [3]int) opRes {
 		in := map[string]cty.Value{"a": a[0], keyPool[4+p[1]%4].raw: a[1]}
 		var r cty.Value
+		what := "MapVal"
 		if p[0]%2 == 0 {
 			r = cty.MapVal(in)
 		} else {
-			r = cty.ObjectVal(in)
+			r, what = cty.ObjectVal(in), "ObjectVal"
 		}
+		chk := frozen("the result of "+what, r)
 		in["a"] = cty.StringVal("overwritten")
 		delete(in, keyPool[4+p[1]%4].raw)
 		in["injected"] = cty.True
-		return v1(r)
+		res := v1(r)
+		chk(&res)
+		return res
 	}, selAny, selSame)
 	defOp("MarksInMutate", "alias.in.marks", func(t *taskState, a [3]cty.Value, p [3]int) opRes {
+		// every way of handing a Go mark set to the library, on a receiver with and without marks of its own;
+		// the caller keeps the set and goes on using it
+		recv := a[0]
+		if p[0]%2 == 0 {
+			recv, _ = recv.UnmarkDeep()
+		}
 		src := cty.NewValueMarks("m1", "x")
-		merged := cty.NewValueMarks(src, "y")
-		r1 := a[0].WithMarks(src)
+		var r cty.Value
+		what := ""
+		switch p[1] % 6 {
+		case 0:
+			r, what = recv.WithMarks(src), "WithMarks(one set)"
+		case 1:
+			r, what = recv.WithMarks(cty.NewValueMarks(), src, nil), "WithMarks(empty, set, nil)"
+		case 2:
+			r, what = recv.WithMarks(src, cty.NewValueMarks("y")), "WithMarks(two sets)"
+		case 3:
+			u, _ := recv.Unmark()
+			r, what = u.MarkWithPaths([]cty.PathValueMarks{{Path: cty.Path{}, Marks: src}}), "MarkWithPaths(root)"
+		case 4:
+			u, m := recv.Unmark()
+			m["m1"] = struct{}{}
+			src = m
+			r, what = u.WithMarks(m), "WithMarks(the set Unmark returned)"
+		case 5:
+			merged := cty.NewValueMarks(src, "y")
+			r, what = recv.WithMarks(merged), "WithMarks(NewValueMarks(set, mark))"
+			chk := frozen("the result of "+what, r)
+			merged["injected"] = struct{}{}
+			res := v1(r)
+			chk(&res)
+			return res
+		}
+		chk := frozen("the result of "+what, r)
 		src["injected"] = struct{}{}
 		delete(src, "m1")
-		r2 := a[0].WithMarks(merged)
-		merged["injected"] = struct{}{}
-		return opRes{vals: []cty.Value{r1, r2}, s: marksKey(merged)}
+		res := opRes{vals: []cty.Value{r}, s: marksKey(src)}
+		chk(&res)
+		return res
 	}, selAny)
 	// ---- ValueSet life cycles on task-owned copies of shared sets
 	defOp("SetFork", "helper.fork", func(t *taskState, a [3]cty.Value, p [3]int) opRes {
@@ -1318,6 +1396,9 @@ func simC20World(c *Ctx) {
 		}
 		for _, v := range r.vals {
 			observe(c, v, "C20:"+d.name)
+		}
+		if r.viol != "" {
+			c.Fail("C20", "mutated-through-alias", "mutated-through-alias:own:"+d.name, "task %d op %d %s: %s", ti, k, in, r.viol)
 		}
 		// nothing that existed before may have changed
 		now := w.fingerprints()
